@@ -8,6 +8,7 @@ import gen
 import mockca
 import tacdrun
 import vlib
+from ext import auditd_c16, auditd_tacd
 
 FINISH = dict(
     level="proof",
@@ -25,7 +26,16 @@ FINISH = dict(
          "certificate key type x digest, values by flag / file / stdin, TCP and unix listeners; for each server "
          "the client offers [acme-tls/1], [h2, acme-tls/1], [acme-tls/1, h2], [h2], [http/1.1, h2], none; the "
          "peer certificate is DER-parsed; Spec.C16.holds judges each handshake with the digest computed by "
-         "the MODEL from token and thumbprint. non-trivial = an offer containing acme-tls/1 or a foreign one.",
+         "the MODEL from token and thumbprint. non-trivial = an offer containing acme-tls/1 or a foreign one. "
+         "Further servers (ext/auditd_c16.py): all 9 (domain source, extension source) pairs, short options, FIFOs "
+         "and /dev/stdin as files, standard input in one piece / in pieces / without final newline / CRLF, the "
+         "default key type and digest (option absent), listeners [::1]:p and localhost:p, domain classes (A-label "
+         "input, 63-character label, A-label of exactly 63 octets, 253-character name, labels outside the BMP, "
+         "digits, 8 labels, case-randomised non-ASCII, trailing dot judged with either SAN spelling; 64-character "
+         "label / A-label over 63 octets / 254 characters are observed only), ten near misses of acme-tls/1 per "
+         "server (must be refused, or served when acme-tls/1 itself is among them), SNI = the A-label / none / "
+         "an unrelated name. Observed only (counted, never judged): names that are not domain names, and tacd "
+         "started without -f (it detaches before it reads its values) with the values by option / file / stdin.",
 )
 
 KEYTYPES = ["rsa2048", "ecdsa-p256", "ecdsa-p384", "ecdsa-p521", "ed25519", "ed448", "rsa4096"]
@@ -60,6 +70,8 @@ def gen_domain(rng):
 
 
 def one(sc, binary, scratch):
+    if sc.get("auditd"):
+        return auditd_c16.one(sc, binary, scratch, OFFERS)
     d = os.path.join(scratch, "s%d" % sc["idx"])
     os.makedirs(d, exist_ok=True)
     kw = {"key_type": sc["crt_key"], "digest": sc["crt_digest"]}
@@ -89,7 +101,9 @@ def one(sc, binary, scratch):
     t = tacdrun.Tacd(binary, listen=listen, stdin_text=stdin_text, **kw)
     res = {"idx": sc["idx"], "started": False, "shakes": []}
     try:
-        if not t.wait_listening(timeout=20):
+        # (a 4096-bit RSA key can take tens of seconds on a loaded machine: slow is not "did not start")
+        # (and the server answering at the chosen port must be THIS tacd: auditd_tacd.wait_own)
+        if not auditd_tacd.wait_own(t, timeout=90 if sc["crt_key"] == "rsa4096" else 20):
             rc, err = t.stop()
             res["stderr"] = err[-500:]
             res["rc"] = rc
@@ -128,6 +142,7 @@ def run(ctx):
     try:
         scenarios = build_scenarios(ctx, helper)
         execute(ctx, scenarios, binary, scratch, helper)
+        auditd_c16.observe_daemonised(ctx, scenarios, binary, scratch, helper)
     finally:
         helper.close()
         shutil.rmtree(scratch, ignore_errors=True)
@@ -149,10 +164,14 @@ def build_scenarios(ctx, helper, fixed=None):
         specs.append({"domain": dom, "domain_text": text, "source": source,
                       "acct_key": rng.choice(list(keys)), "token": "".join(rng.choice(
                           "ABCDEFGHIJKLMNOPQRSTUVWXYZabcdefghijklmnopqrstuvwxyz0123456789-_") for _ in range(rng.randint(8, 43))),
-                      "crt_key": KEYTYPES[len(specs) % (6 if ctx.quick() else 7)], "crt_digest": DIGESTS[len(specs) % 3],
+                      "crt_key": KEYTYPES[len(specs) % (6 if ctx.quick() else 7)],
+                      # (quick tier: 6 key types — the digest must not cycle in step with them)
+                      "crt_digest": DIGESTS[(len(specs) // 6 if ctx.quick() else len(specs)) % 3],
                       "listener": "unix" if len(specs) % 5 == 4 else "tcp",
                       # a few daemons first live through a burst that makes accept() fail (no rng draw)
                       "prelude": "fd-exhaustion" if len(specs) % 9 == 4 else None})
+    if not fixed:
+        specs += auditd_c16.specs(ctx, len(specs), list(keys), KEYTYPES, DIGESTS)
     pops = [{"op": "proof", "key_pem": keys[s["acct_key"]]["pem"], "token": s["token"], "type": "tls-alpn-01"}
             for s in specs]
     impl = vlib.probe(pops)
@@ -174,13 +193,17 @@ def build_scenarios(ctx, helper, fixed=None):
 
 def execute(ctx, scenarios, binary, scratch, helper):
     with concurrent.futures.ThreadPoolExecutor(max_workers=10) as ex:
-        results = list(ex.map(lambda sc: one(sc, binary, scratch), scenarios))
+        results = list(ex.map(lambda sc: auditd_tacd.port_retry(lambda: one(sc, binary, scratch),
+                                                                lambda r: r.get("stderr")), scenarios))
     jin, meta = [], []
     for sc, r in zip(scenarios, results):
         ctx.count("source:" + sc["source"])
         ctx.count("listener:" + sc["listener"])
         ctx.count("crt:%s/%s" % (sc["crt_key"], sc["crt_digest"]))
         ctx.count("idn" if sc["alabel"] != sc["domain"].lower() else "ascii")
+        auditd_c16.count(ctx, sc)
+        if auditd_c16.observe_only(ctx, sc, r):
+            continue
         if not r["started"]:
             ctx.violation("tacd did not start for domain %r (%s)" % (sc["domain_text"], r.get("stderr", "")[-200:]),
                           {"scenario": sc, "result": {k: r.get(k) for k in ("rc", "stderr")}})
@@ -198,7 +221,8 @@ def execute(ctx, scenarios, binary, scratch, helper):
                         "not_before_ok": pc.get("not_before_in", 1) <= 2,
                         "not_after_ok": pc.get("not_after_in", -1) >= 0,
                         "n_certs": pc.get("n_certs")}
-            jin.append({"op": "c16_judge", "domain": sc["domain_text"], "alabel": sc["alabel"],
+            jdomain, jalabel = auditd_c16.judge_names(ctx, sc, cert)
+            jin.append({"op": "c16_judge", "domain": jdomain, "alabel": jalabel,
                         "digest_hex": sc["digest_hex"], "offer": offer or [],
                         "handshake_ok": bool(hs.get("ok")), "negotiated": hs.get("alpn"), "cert": cert})
             meta.append((sc, offer, hs, cert))
@@ -206,7 +230,7 @@ def execute(ctx, scenarios, binary, scratch, helper):
     for (sc, offer, hs, cert), j, v in zip(meta, jin, verdicts):
         ctx.case({"domain": sc["domain_text"], "offer": offer, "crt": [sc["crt_key"], sc["crt_digest"]],
                   "src": sc["source"]}, nontrivial=bool(offer))
-        ctx.count("offer:%s" % ("none" if offer is None else "+".join(offer)))
+        ctx.count("offer:%s" % auditd_c16.offer_label(offer))
         ctx.count("handshake:%s" % ("ok" if hs.get("ok") else "refused"))
         if not v.get("holds"):
             ctx.violation("tacd for %r, client offer %s: handshake %s, negotiated %s, certificate %s" % (
